@@ -152,3 +152,43 @@ Theorem c01_code_get_wpa_data_safe : forall b a hl ty rho mc,
        s = a + 107 /\ n <= 1024 /\ n <= zlen b - 107 /\ n <= 256 * znth b 105 + znth b 106 /\ d = wrap u64 (rho "ret:malloc") /\ d <> 0).
 Proof. exact code_get_wpa_data_safe. Qed.
 Print Assumptions c01_code_get_wpa_data_safe.
+
+(* ---- the RSN and Microsoft vendor element handlers AS TRANSLATED (Gen/Sites.v): the decoder is handed EXACTLY the bounds of the element's body - [data, data + len) for RSN,
+   [data + 4, data + len) for a WPA1 vendor element - and is not called at all for elements shorter than their fixed part; composed with c01_code_rsn_info_safe / _wpa_info_safe above
+   (the decoders read only inside the bounds they are given) no octet outside the element is read (also stated under C08) ---- *)
+From LW Require Import Proofs.CodeSmall.
+(* the RSN element handler *)
+Theorem c01_code_bss_handle_rsn_tag : forall rho e d len m,
+  0 <= e < 2 ^ 64 -> 0 <= d < 2 ^ 63 -> - 2 ^ 31 <= len < 2 ^ 31 -> d + len < 2 ^ 63 ->
+  let rho0 := upd (upd (upd rho "bss->encryption_info" e) "rsn_data" d) "rsn_len" len in
+  let r := wrap s32 (rho "ret:libwifi_get_rsn_info") in
+  let c1 := ("libwifi_get_rsn_info", [wrap u64 (rho "&rsn_info"); d; d + len]) in
+  let res := exec 40 m rho0 [] body_libwifi_bss_handle_rsn_tag in
+  exists rho', rho' "bss->encryption_info" = clear_wep e /\
+    if len <? 6 then res = Returned (Some (-22)) rho' []
+    else if negb (r =? 0) then res = Returned (Some (-22)) rho' [c1]
+    else res = Returned (Some 0) rho' [c1; ("libwifi_enumerate_rsn_suites", [wrap u64 (rho "&rsn_info"); wrap u64 (rho "bss")]);
+                                       ("memcpy", [wrap u64 (rho "&bss->rsn_info"); wrap u64 (rho "&rsn_info"); 64])].
+Proof. exact code_bss_handle_rsn_tag. Qed.
+Print Assumptions c01_code_bss_handle_rsn_tag.
+
+(* the vendor (Microsoft OUI type 1 = WPA1, type 4 = WPS) element handler *)
+Theorem c01_code_bss_handle_msft_tag : forall rho e a len buf,
+  0 <= e < 2 ^ 64 -> 0 < a -> a + zlen buf < 2 ^ 62 -> wfbytes buf -> - 2 ^ 31 <= len < 2 ^ 31 -> (4 <= len -> 4 <= zlen buf) ->
+  let rho0 := upd (upd (upd rho "bss->encryption_info" e) "msft_data" a) "msft_len" len in
+  let t := znth buf 3 in
+  let r := wrap s32 (rho "ret:libwifi_get_wpa_info") in
+  let c1 := ("libwifi_get_wpa_info", [wrap u64 (rho "&wpa_info"); a + 4; a + len]) in
+  let res := exec 60 (mem_at a buf) rho0 [] body_libwifi_bss_handle_msft_tag in
+  if len <? 4 then exists rho', res = Returned (Some (-22)) rho' [] /\ rho' "bss->encryption_info" = e /\ rho' "bss->wps" = rho "bss->wps"
+  else if t =? 1 then
+    exists rho', rho' "bss->encryption_info" = Z.lor (clear_wep e) 4 /\ rho' "bss->wps" = rho "bss->wps" /\
+      if len <? 10 then res = Returned (Some (-22)) rho' []
+      else if negb (r =? 0) then res = Returned (Some (-22)) rho' [c1]
+      else res = Returned (Some 0) rho'
+                   [c1; ("libwifi_enumerate_wpa_suites", [wrap u64 (rho "&wpa_info"); wrap u64 (rho "bss")]);
+                        ("memcpy", [wrap u64 (rho "&bss->wpa_info"); wrap u64 (rho "&wpa_info"); 58])]
+  else exists rho', res = Returned (Some 0) rho' [] /\ rho' "bss->encryption_info" = e /\
+                    rho' "bss->wps" = (if t =? 4 then 1 else rho "bss->wps").
+Proof. exact code_bss_handle_msft_tag. Qed.
+Print Assumptions c01_code_bss_handle_msft_tag.
